@@ -34,9 +34,14 @@ func init() {
 }
 
 func c10Lens(tier string) []int {
-	l := []int{0, 1, 2, 7, 8, 15, 16, 17, 255, 256, 257, 4095, 65535, 65536}
+	// every length 0..40 (all residues mod 8 and mod 16, several times), then DER/length-form and buffer-size boundaries
+	var l []int
+	for i := 0; i <= 40; i++ {
+		l = append(l, i)
+	}
+	l = append(l, 255, 256, 257, 511, 512, 513, 4095, 4096, 32767, 32768, 32769, 65535, 65536)
 	if tier == "thorough" {
-		for i := 18; i < 255; i += 13 {
+		for i := 41; i < 255; i += 13 {
 			l = append(l, i)
 		}
 		l = append(l, 1<<20)
